@@ -106,7 +106,7 @@ fn ver_strategy() -> BoxedStrategy<Ver> {
 // C19 — admission
 // =======================================================================================
 
-pub const C19_RULE: &str = "E5 admission: per case one listener (v4 or v5; no auth / static map / external callback accept-all, deny-all or checking / both; in 12% of the cases the broker is full: max_connections = the two helper connections) and 1-4 sequential fresh connections through it (a connection repeats its predecessor's first bytes with probability 1/4). Each writes first bytes = CONNECT (one generated defect at most: other protocol version's CONNECT, wrong protocol name, level outside {4,5}, keep-alive 0, client id containing + $ # /, empty id without clean session, broker full, login absent / unknown user / wrong password / other scheme's credentials), or another packet type, or garbage, or a CONNECT prefix (never followed by anything), or nothing; then SUBSCRIBE + PUBLISH (pipelined in the same write or after reading the reply). Region F2 (the same router-refused client id presented again) is excluded by construction and probed separately. Oracle: a reference admission function written from the statement; CONNACK(Success) is written iff it admits; for a rejected connection no CONNACK(Success) is ever read up to the broker's close, an independent observer subscribed to '#' sees nothing caused by it before a sentinel published after the connection task was joined, and a later non-clean connection under the same client id is not told that a session exists. Non-trivial: >=1 rejected connection that also sent the follow-up.";
+pub const C19_RULE: &str = "E5 admission: per case one listener (v4 or v5; no auth / static map / external callback accept-all, deny-all or checking / both; in 12% of the cases the broker is full: max_connections = the two helper connections) and 1-4 sequential fresh connections through it (a connection repeats its predecessor's first bytes with probability 1/4). Each writes first bytes = CONNECT (one generated defect, in a fifth of the damaged CONNECTs two independent ones: other protocol version's CONNECT, wrong protocol name, level outside {4,5}, keep-alive 0, client id containing + $ # /, empty id without clean session, broker full, login absent / unknown user / wrong password / other scheme's credentials), or another packet type, or garbage, or a CONNECT prefix (never followed by anything), or nothing; then SUBSCRIBE + PUBLISH (pipelined in the same write or after reading the reply). Region F2 (the same router-refused client id presented again) is excluded by construction and probed separately. Oracle: a reference admission function written from the statement; CONNACK(Success) is written iff it admits; for a rejected connection no CONNACK(Success) is ever read up to the broker's close, an independent observer subscribed to '#' sees nothing caused by it before a sentinel published after the connection task was joined, and a later non-clean connection under the same client id is not told that a session exists. Non-trivial: >=1 rejected connection that also sent the follow-up.";
 
 const PROTO_NAMES: [&str; 6] = ["MQTT", "MQIsdp", "MQTX", "mqtt", "", "MQTTT"];
 const IDS: [&str; 12] = ["dev1", "dev-2_ok", "", "a+b", "$sys", "x#", "a/b", "+", "#", "/", "ünï-3", "dev1"];
@@ -405,7 +405,24 @@ pub const F2_SIGNATURE: &str = "panic:connection_task:rumqttd/src/server/broker.
 fn connect_spec(listener_known: bool) -> BoxedStrategy<ConnectSpec> {
     let _ = listener_known;
     // a spec that is valid for any listener once `enc` is set to the listener's version (the
-    // case generator does that), damaged by at most one defect
+    // case generator does that), damaged by one defect, in a fifth of the cases by two
+    // independent ones (the reference admission function lists every reason)
+    fn damage(c: &mut ConnectSpec, defect: u8, detail: u16) {
+        match defect {
+            // 0..=3: no defect (about a third of the CONNECTs are admissible)
+            4 => c.enc = Ver::V5, // marker: "other version" (resolved by the case generator)
+            5 => c.name = 1 + idx(detail, PROTO_NAMES.len() - 1) as u8,
+            6 => c.level = Some([3u8, 6, 0, 255, 131][idx(detail, 5)]),
+            7 => c.keep_alive = 0,
+            8 => c.id = 3 + idx(detail, 7) as u8, // ids with + $ # /
+            9 => {
+                c.id = 2; // empty
+                c.clean = detail & 1 == 0; // empty + clean is admissible
+            }
+            10 | 11 => c.login = 1 + idx(detail, 7) as u8,
+            _ => {}
+        }
+    }
     (
         0u8..=11,                                                               // defect
         any::<u16>(),                                                           // keep-alive source
@@ -414,8 +431,9 @@ fn connect_spec(listener_known: bool) -> BoxedStrategy<ConnectSpec> {
         any::<bool>(),                                                          // will
         prop_oneof![4 => Just(None), 1 => any::<u8>().prop_map(Some)],          // split
         any::<u16>(),                                                           // defect detail
+        prop_oneof![4 => Just(None), 1 => (4u8..=11, any::<u16>()).prop_map(Some)], // second defect
     )
-        .prop_map(|(defect, ka, ids, clean, will, split, detail)| {
+        .prop_map(|(defect, ka, ids, clean, will, split, detail, second)| {
             let valid_ids = [0usize, 1, 10, 11];
             let mut c = ConnectSpec {
                 enc: Ver::V4, // patched by the case generator
@@ -428,19 +446,11 @@ fn connect_spec(listener_known: bool) -> BoxedStrategy<ConnectSpec> {
                 will,
                 split,
             };
-            match defect {
-                // 0..=3: no defect (about a third of the CONNECTs are admissible)
-                4 => c.enc = Ver::V5, // marker: "other version" (resolved by the case generator)
-                5 => c.name = 1 + idx(detail, PROTO_NAMES.len() - 1) as u8,
-                6 => c.level = Some([3u8, 6, 0, 255, 131][idx(detail, 5)]),
-                7 => c.keep_alive = 0,
-                8 => c.id = 3 + idx(detail, 7) as u8, // ids with + $ # /
-                9 => {
-                    c.id = 2; // empty
-                    c.clean = detail & 1 == 0; // empty + clean is admissible
+            damage(&mut c, defect, detail);
+            if let Some((d2, detail2)) = second {
+                if defect >= 4 && d2 != defect {
+                    damage(&mut c, d2, detail2);
                 }
-                10 | 11 => c.login = 1 + idx(detail, 7) as u8,
-                _ => {}
             }
             c
         })
